@@ -662,7 +662,24 @@ class NAHooks(Hooks):
                     'dtype', 'int64')))
             return ar
         if name == 'isclose':
-            return lambda *a, **k: Opaque('np.isclose')
+            def isclose(a, b, *r, **k):
+                # exact arithmetic: close means equal
+                if is_scalar(a) and is_scalar(b):
+                    return I.equal(a, b, None)
+                return Opaque('np.isclose')
+            return isclose
+        if name in ('array_equiv', 'array_equal'):
+            def aeq(a, b, **k):
+                x, y = na_of(a, None).a, na_of(b, None).a
+                if name == 'array_equal' and x.shape != y.shape:
+                    return False
+                try:
+                    x, y = _np.broadcast_arrays(x, y)
+                except ValueError:
+                    return False
+                return all(I.truth_value(I.equal(p, q, None), None)
+                           for p, q in zip(x.flat, y.flat))
+            return aeq
         if name in ('inf', 'nan', 'pi', 'e', 'newaxis'):
             if name == 'newaxis':
                 return None
